@@ -32,6 +32,9 @@ func runC15(c *engine.Ctx, tier string) {
 		channelTypestate(c, "C15.4/"+short, rel)
 		sharedDispatcher(c, "C15.5/"+short, rel)
 		lockDiscipline(c, "C15.6/"+short, rel)
+		if rel != pkgStorePropV2 {
+			registryCleanup(c, "C15.7/"+short, rel, 3)
+		}
 	}
 }
 
@@ -441,5 +444,57 @@ func lockDiscipline(c *engine.Ctx, id, rel string) {
 	if o.Res.Sites == 0 {
 		o.Site(rel + ": no mutex in this store — nothing to pair")
 		o.Eval(1)
+	}
+}
+
+// registryCleanup: C15.7 — a departing watcher removes its own registration only.
+func registryCleanup(c *engine.Ctx, id, rel string, min int) {
+	o := c.Custom(id, "K-own(registry cleanup)", "in the watcher registries of the store (receiver fields), a delete is keyed by the departing watcher's own id (a uuid), or removes a per-record group only under len(group) == 0",
+		"a request handler waiting on a record must keep receiving its events when another watcher of the same record leaves")
+	defer o.Done(min)
+	paths, err := storePaths(c, rel)
+	if err != nil {
+		o.Undecided(rel, err.Error())
+		return
+	}
+	reported := map[string]bool{}
+	seen := map[string]bool{}
+	for _, p := range paths {
+		if !strings.Contains(p.Root.Name(), "Store.Watch") {
+			continue
+		}
+		for i := range p.Events {
+			e := &p.Events[i]
+			if e.Kind != engine.EvCall || e.CalleeName != "delete" || len(e.Args) != 2 || len(e.ArgExprs) != 2 {
+				continue
+			}
+			m, k := e.Args[0], e.Args[1]
+			if !strings.HasPrefix(m, "^s.") && !strings.HasPrefix(m, "$recv.") {
+				continue
+			}
+			pos := c.P.Pos(e.Pos)
+			if !seen[pos] {
+				seen[pos] = true
+				o.Site(pos + " delete(" + m + ", " + k + ")")
+			}
+			o.Eval(1)
+			info := p.Root.Pkg.TypesInfo
+			if t := info.TypeOf(e.ArgExprs[1]); t != nil && strings.HasSuffix(t.String(), "uuid.UUID") {
+				continue // the watcher's own registration
+			}
+			group := "len(" + m + "[" + k + "])"
+			empty := false
+			for _, l := range engine.CondsBefore(p, i) {
+				if l.L == group && l.RConst != nil && l.RConst.String() == "0" && l.Mask == 2 {
+					empty = true
+				}
+			}
+			if !empty && !reported[pos] {
+				reported[pos] = true
+				o.Fail(&engine.Violation{Key: p.Root.Name()[:strings.Index(p.Root.Name()+"$", "$")] + "|group " + m + " removed while it may hold other watchers", Pos: pos, Func: p.Root.Name(),
+					Msg:   "delete(" + m + ", " + k + ") removes the whole group of watchers of one record on a path that does not establish " + group + " == 0: the other watchers of that record are unregistered with it",
+					Found: engine.LitsString(engine.CondsBefore(p, i))})
+			}
+		}
 	}
 }
